@@ -102,6 +102,7 @@ def requirements(tier):
     for m in ("Range", "Azimut", "Elevation", "Doppler"):
         req[f"measure:{m}:legs1"] = 1000 * k
         req[f"measure:{m}:legs2"] = 1000 * k
+    req["measure:re-measured-after-in-place-edit"] = 1000 * k
     req["measure:path:three-way"] = 100 * k
     req["measure:path:relayed"] = 100 * k
     for h in COORD_TYPES:
@@ -673,6 +674,25 @@ def measure_checks(ctx, rng, station, given, date, lk, tols, w, measures, sfx, o
             else:
                 ctx.resid("measure:doppler" + sfx, abs(val - lk["range_rate"]), tol_rr, key="C11/measure-doppler", witness=dict(wm, got=val),
                           msg=f"Doppler value {val!r} != range-rate {lk['range_rate']!r}")
+            # history: the same state object measured again after it was edited in place (finite-difference sensitivities of
+            # an orbit determination do exactly that) gives what a brand-new state holding the new numbers gives
+            if shape == "two-way" and cls_name in ("Range", "Doppler", "Azimut", "Elevation") and hasattr(given, "copy"):
+                try:
+                    edited = given.copy()
+                    M(path, date, float("nan")).from_orbit(edited)  # first measurement on this object
+                    k_ = rng.randrange(6)
+                    edited[k_] = float(edited[k_]) * (1 + 1e-3) + (1000.0 if k_ < 3 else 1.0)
+                    again = float(M(path, date, float("nan")).from_orbit(edited).value)
+                    from beyond.orbits import StateVector as _SV
+
+                    fresh = _SV(np.array(edited, dtype=float), edited.date, edited.form.name, edited.frame)
+                    ref_v = float(M(path, date, float("nan")).from_orbit(fresh).value)
+                    ctx.count("measure:re-measured-after-in-place-edit")
+                    ctx.expect(again == ref_v, "C11/measure-of-an-edited-state-is-the-earlier-one",
+                               dict(wm, component=k_, measured_again=again, fresh_object_with_the_same_numbers=ref_v, first=val),
+                               f"{cls_name}: state edited in place and measured again gives {again!r}, a fresh state with the same numbers {ref_v!r}")
+                except Exception as exc:
+                    ctx.violation(f"C11/measure-{cls_name.lower()}-raises", dict(wm, exc=repr(exc), step="re-measure after in-place edit"), f"{cls_name}.from_orbit raised {exc!r}")
             meta_ok = (
                 type(got) is M and got.date == given.date and tuple(got.path) == tuple(path) and got.frame is first and got.type == cls_name
             )
